@@ -30,7 +30,112 @@ func buildCFG(pk *packages.Package, body *ast.BlockStmt) *cfg.CFG {
 		}
 		return true
 	}
-	return cfg.New(body, mayReturn)
+	return cfg.New(deselect(body), mayReturn)
+}
+
+// deselect rewrites select statements into tagless switches whose case bodies start with the
+// clause's communication statement. go/cfg evaluates every clause's communication before
+// branching, which would put a send on every path; after the rewrite a send (or receive) lies only
+// on the path of the clause that was taken. The inner statements are the original nodes.
+func deselect(body *ast.BlockStmt) *ast.BlockStmt {
+	if body == nil {
+		return nil
+	}
+	out, _ := deselectStmt(body)
+	return out.(*ast.BlockStmt)
+}
+
+func deselectList(list []ast.Stmt) ([]ast.Stmt, bool) {
+	changed := false
+	out := make([]ast.Stmt, len(list))
+	for i, s := range list {
+		ns, ch := deselectStmt(s)
+		out[i] = ns
+		changed = changed || ch
+	}
+	if !changed {
+		return list, false
+	}
+	return out, true
+}
+
+func deselectStmt(s ast.Stmt) (ast.Stmt, bool) {
+	switch x := s.(type) {
+	case nil:
+		return nil, false
+	case *ast.BlockStmt:
+		if x == nil {
+			return x, false
+		}
+		l, ch := deselectList(x.List)
+		if !ch {
+			return x, false
+		}
+		return &ast.BlockStmt{Lbrace: x.Lbrace, List: l, Rbrace: x.Rbrace}, true
+	case *ast.IfStmt:
+		b, c1 := deselectStmt(x.Body)
+		var e ast.Stmt
+		c2 := false
+		if x.Else != nil {
+			e, c2 = deselectStmt(x.Else)
+		}
+		if !c1 && !c2 {
+			return x, false
+		}
+		return &ast.IfStmt{If: x.If, Init: x.Init, Cond: x.Cond, Body: b.(*ast.BlockStmt), Else: e}, true
+	case *ast.ForStmt:
+		b, ch := deselectStmt(x.Body)
+		if !ch {
+			return x, false
+		}
+		return &ast.ForStmt{For: x.For, Init: x.Init, Cond: x.Cond, Post: x.Post, Body: b.(*ast.BlockStmt)}, true
+	case *ast.RangeStmt:
+		b, ch := deselectStmt(x.Body)
+		if !ch {
+			return x, false
+		}
+		return &ast.RangeStmt{For: x.For, Key: x.Key, Value: x.Value, TokPos: x.TokPos, Tok: x.Tok, Range: x.Range, X: x.X, Body: b.(*ast.BlockStmt)}, true
+	case *ast.LabeledStmt:
+		b, ch := deselectStmt(x.Stmt)
+		if !ch {
+			return x, false
+		}
+		return &ast.LabeledStmt{Label: x.Label, Colon: x.Colon, Stmt: b}, true
+	case *ast.SwitchStmt:
+		b, ch := deselectStmt(x.Body)
+		if !ch {
+			return x, false
+		}
+		return &ast.SwitchStmt{Switch: x.Switch, Init: x.Init, Tag: x.Tag, Body: b.(*ast.BlockStmt)}, true
+	case *ast.TypeSwitchStmt:
+		b, ch := deselectStmt(x.Body)
+		if !ch {
+			return x, false
+		}
+		return &ast.TypeSwitchStmt{Switch: x.Switch, Init: x.Init, Assign: x.Assign, Body: b.(*ast.BlockStmt)}, true
+	case *ast.CaseClause:
+		l, ch := deselectList(x.Body)
+		if !ch {
+			return x, false
+		}
+		return &ast.CaseClause{Case: x.Case, List: x.List, Colon: x.Colon, Body: l}, true
+	case *ast.SelectStmt:
+		sw := &ast.SwitchStmt{Switch: x.Select, Body: &ast.BlockStmt{Lbrace: x.Body.Lbrace, Rbrace: x.Body.Rbrace}}
+		for _, cs := range x.Body.List {
+			cc := cs.(*ast.CommClause)
+			body, _ := deselectList(cc.Body)
+			nc := &ast.CaseClause{Case: cc.Case, Colon: cc.Colon}
+			if cc.Comm != nil {
+				nc.List = []ast.Expr{&ast.Ident{NamePos: cc.Case, Name: "_selected"}}
+				nc.Body = append([]ast.Stmt{cc.Comm}, body...)
+			} else {
+				nc.Body = body
+			}
+			sw.Body.List = append(sw.Body.List, nc)
+		}
+		return sw, true
+	}
+	return s, false
 }
 
 type factSet map[string]bool
